@@ -14,8 +14,8 @@ RULE = ("states = canonical (totals dict, Counter hidden state incl. scalar-vs-a
         "across moduli, batch orders and batch splits; non-trivial = the batch contains a key and a non-key sharing a bucket, or repeats")
 ASSUMPTIONS = ["reference model: dict of totals = initial value + occurrences", "samples lie inside the key dtype's range (others are outside the statement)"]
 REQUIRED_FEATURES = ["empty_batch", "only_non_keys", "non_key_colliding", "non_key_empty_bucket", "all_keys_collide", "scalar_nonzero_init",
-                     "array_init", "large_key", "cross_history_comparisons", "depth2", "huge_batch", "ndarray_batch", "exhaustive_small_batches", "numpy_typed_initial_values"]
-BOUNDS = {"quick": "10 key sets (1-5 keys, and 10 / 17 keys) x moduli {default,1,2,3,4,64} x initial {default, 0, 4, per-key array} (+ int8/uint8/uint64/python-list keys, int32 counts on 4 sets); "
+                     "array_init", "large_key", "cross_history_comparisons", "depth2", "huge_batch", "ndarray_batch", "exhaustive_small_batches", "numpy_typed_initial_values", "negative_scalar_init"]
+BOUNDS = {"quick": "10 key sets (1-5 keys, and 10 / 17 keys) x moduli {default,1,2,3,4,64} x initial {default, 0, 4, -3, per-key array} (+ int8/uint8/uint64/python-list keys, int32 counts on 4 sets); "
                    "all count histories of depth <= 2 over ~32 batches and depth 3 with the third batch from the 12 simplest (empty, every single universe element, ordered pairs over keys / colliding and "
                    "free non-keys, heavy repetition, only non-keys, large keys); every batch of <= 4 samples over 9 symbols on 3 tables with buckets of 3/2/1/0 keys; ndarray batches (one of them as a strided view), a 70 006-sample batch",
           "thorough": "12 key sets, depth 3 over the full batch alphabet"}
@@ -34,7 +34,7 @@ def shards(tier):
     out = [{"keys": k, "kdt": "int64", "init": i, "depth": 3} for k in ks for i in INITS]
     out += [{"keys": k, "kdt": d, "init": i, "depth": 2} for (k, d) in TYPED for i in ("default", "array")]
     # initial values spelled in numpy types: a numpy integer scalar, an unsigned per-key array
-    out += [{"keys": k, "kdt": "int64", "init": i, "depth": 2} for k in ([0], [1, 3], [3, 0, 5, 1], [5, -1, 2]) for i in ("np_four", "uarray")]
+    out += [{"keys": k, "kdt": "int64", "init": i, "depth": 2} for k in ([0], [1, 3], [3, 0, 5, 1], [5, -1, 2]) for i in ("np_four", "uarray", "minus3")]
     # key sets at the ends of the key dtype's range / spread over more than half of it (bounds and spans computed in the key dtype wrap)
     out += [{"keys": k, "kdt": "int64", "init": i, "depth": 2} for k in EXTREME_KEYSETS for i in ("default", "four", "array")]
     # EVERY batch of up to 4 samples (5 in the thorough tier) over a 9-symbol universe, for tables whose buckets hold 3, 2, 1 (and 0) keys:
@@ -116,6 +116,8 @@ def make(keys, mod, kdt, init):
         return Counter(karr, 0, **kw)
     if init == "four":
         return Counter(karr, 4, **kw)
+    if init == "minus3":         # a negative scalar initial value
+        return Counter(karr, -3, **kw)
     if init == "np_four":        # the same constant spelled as a numpy integer scalar
         return Counter(karr, np.int64(4), **kw)
     if init == "uarray":         # per-key initial values in an unsigned dtype
@@ -147,6 +149,8 @@ def model0(keys, init):
         return {k: 10 * (i + 1) for i, k in enumerate(keys)}
     if init in ("four", "np_four"):
         return {k: 4 for k in keys}
+    if init == "minus3":
+        return {k: -3 for k in keys}
     return {k: 10 * (i + 1) for i, k in enumerate(keys)}
 
 
@@ -218,8 +222,10 @@ def run_shard(shard, tier, acc):
         m = mod if mod is not None else 2 * len(keys) - 1
         if len(keys) > 1 and len({k % m for k in keys}) == 1:
             acc.feature("all_keys_collide")
-        if init in ("four", "np_four"):
+        if init in ("four", "np_four", "minus3"):
             acc.feature("scalar_nonzero_init")
+        if init == "minus3":
+            acc.feature("negative_scalar_init")
         if init in ("array", "ndarray", "uarray"):
             acc.feature("array_init")
         if init in ("np_four", "uarray"):
@@ -227,6 +233,9 @@ def run_shard(shard, tier, acc):
         if any(k >= 2 ** 62 for k in keys):
             acc.feature("large_key")
         bs = batches(keys, mod, kdt)
+        acc.begin(["hist", cfg, []])
+        if _step(acc, cfg, [], set(), None) == "bad":        # the table as constructed: must exist and read back its initial values
+            continue
         c, d = replay(cfg, [])
         seen = {hash((canon_table(c), repr(sorted(d.items()))))}
         frontier = [[]]
@@ -275,7 +284,8 @@ def _batch_features(acc, cfg, b):
 
 def _step(acc, cfg, hist, seen, cross):
     keys, mod, kdt, init = cfg
-    _batch_features(acc, cfg, hist[-1])
+    if hist:
+        _batch_features(acc, cfg, hist[-1])
 
     def run():
         c, d = replay(cfg, hist)
@@ -283,7 +293,7 @@ def _step(acc, cfg, hist, seen, cross):
     r = attempt(run)
     acc.trans()
     if is_refused(r):
-        acc.fail("count-refused", "counted", r)
+        acc.fail("count-refused" if hist else "table-construction-refused", "counted" if hist else "a table over the key set", r)
         return "bad"
     c, d, key, obs = r
     if ARR_DAMAGE is not None:
@@ -316,6 +326,6 @@ def _step(acc, cfg, hist, seen, cross):
 
 def check(case, acc):
     _, cfg, hist = case
-    for i in range(1, len(hist) + 1):
+    for i in range(0 if not hist else 1, len(hist) + 1):
         if _step(acc, cfg, hist[:i], set(), None) == "bad":
             return
